@@ -12,6 +12,9 @@ def main():
     prop = a.prop.upper()
     seed = int(os.environ.get('VERIF_SEED', '0') or 0)
     sys.setrecursionlimit(10000)
+    if prop == 'MODEL':
+        from harness import model
+        return model.main(a.tier)
     from . import runner
     module = 'harness.' + prop.lower()
     if a.replay:
